@@ -9,7 +9,7 @@ use crate::polling::Poller;
 use std::{io, slice};
 use crate::list::{SourceEntry, SourceList};
 use crate::sources::{Dispatcher, EventSource, Idle, IdleDispatcher, EventDispatcher};
-use crate::sys::PollEvent;
+use crate::sys::{Notifier, PollEvent};
 use crate::token::TokenInner;
 use crate::{AdditionalLifecycleEventsSet, Poll, PostAction, Readiness, Token, TokenFactory};
 
@@ -19,6 +19,7 @@ use crate::{AdditionalLifecycleEventsSet, Poll, PostAction, Readiness, Token, To
 //@ include loop_ops_body
 //@ include loop_lifecycle_body
 //@ include loop_idles_body
+//@ include loop_run_body
 } // mod loop_logic
 pub use crate::loop_logic::RegistrationToken;
 pub mod sys {
